@@ -79,7 +79,7 @@ def _worker(args):
     mod = load_prop(pid)
     agg = dict(n=0, nontrivial=0, sigs=set(), probes={}, faults={}, periods=0, minutes=0.0, calls=0, aborted=0,
                inconclusive=0, viols=[], ffp=0, det_checked=0, det_mismatch=[], samples=[], harness=None,
-               abort_reasons={})
+               abort_reasons={}, viol_idx=[])
     for idx in range(lo, hi):
         if time.time() > deadline:
             break
@@ -123,6 +123,8 @@ def _worker(args):
             agg["abort_reasons"][r] = agg["abort_reasons"].get(r, 0) + 1
         if out.viol and len(agg["viols"]) < 4:
             agg["viols"].append((idx, sc, out.viol))
+        if out.viol and len(agg["viol_idx"]) < 200 and not sc.get("_repeat"):
+            agg["viol_idx"].append((idx, out.viol[0][0]))
         if len(agg["samples"]) < 1 and out.nontrivial:
             agg["samples"].append(sc)
     faulthandler.cancel_dump_traceback_later()
@@ -305,7 +307,7 @@ def main(argv=None):
     det_every = getattr(mod, "DET_EVERY", 50)
     jobs = [(pid, a.tier, seed, lo, min(n_runs, lo + chunk), deadline, det_every) for lo in range(0, n_runs, chunk)]
     tot = dict(n=0, nontrivial=0, sigs=set(), probes={}, faults={}, periods=0, minutes=0.0, calls=0, aborted=0,
-               inconclusive=0, viols=[], ffp=0, det_checked=0, det_mismatch=[], samples=[], abort_reasons={})
+               inconclusive=0, viols=[], ffp=0, det_checked=0, det_mismatch=[], samples=[], abort_reasons={}, viol_idx=[])
     harness = None
     ctx = mp.get_context("fork")
     hard_cap = budget * 2 + 180
@@ -328,6 +330,7 @@ def main(argv=None):
                 _merge(tot["faults"], g["faults"])
                 _merge(tot["abort_reasons"], g["abort_reasons"])
                 tot["viols"].extend(g["viols"])
+                tot["viol_idx"].extend(g["viol_idx"])
                 tot["det_mismatch"].extend(g["det_mismatch"])
                 if len(tot["samples"]) < 3:
                     tot["samples"].extend(g["samples"][: 3 - len(tot["samples"])])
@@ -375,6 +378,18 @@ def main(argv=None):
             if res is not None and tag in [t for t, _ in res[0]]:
                 pick = cand
                 break
+        else:
+            # none of the stored runs stands on its own (each failed because of what its worker had executed before): look
+            # through the other runs that showed this tag for one that does, re-generating each from its index
+            more = sorted(i for i, t_ in tot["viol_idx"] if t_ == tag and i not in {c[0] for c in lst})
+            step = max(1, len(more) // 40)
+            for i in more[::step][:40]:
+                sc_i = mod.gen(run_seed(seed, pid, i), a.tier)
+                sc_i.update(property=pid, verif_seed=seed, run=i)
+                res = isolated_tags(pid, sc_i)
+                if res is not None and tag in [t for t, _ in res[0]]:
+                    pick = (i, sc_i, res[0])
+                    break
         chosen.append(pick)
     chosen.sort(key=lambda v: v[0])
     seen_tags = set()
